@@ -1839,3 +1839,36 @@ def _param_is_output_offset(prog, g, op):
     k = int(m.group(1)) - 1
     sites = [(h, t) for h in prog.real_fns() for bi, t in h.calls() if (t.get("resolved") or "") == g.id]
     return bool(sites) and all(k < len(t["args"]) and re.search(r"output_offset(@Some\.0)?$", _deep(h, t["args"][k], 6)) for h, t in sites)
+
+
+def exact_unit_division(run, R="ALIGN"):
+    """positions and sizes are counted in bits; an address is a position divided by the bank's address unit.  That division loses
+    the bits inside a unit, so wherever the assembler divides a quantity by a bank's `addr_unit` it also takes the remainder of
+    the same two operands (the `position is not aligned to an address` test).  A division without that sibling rounds a position
+    or an end down to whole addresses - a bank overrun by less than one unit, or padding computed from a rounded position, goes
+    unnoticed"""
+    n, bad = 0, []
+    for f in run.prog.real_fns():
+        if not f.id.startswith("asm::"):
+            continue
+        rems = set()
+        divs = []
+        for bi, si, st in f.stmts():
+            if st["k"] == "assign" and st["rv"]["k"] == "binop" and st["rv"]["op"] in ("Div", "Rem"):
+                r_ = _deep(f, st["rv"]["r"], 5)
+                if not r_.endswith(".addr_unit"):
+                    continue
+                key = (_deep(f, st["rv"]["l"], 5), r_)
+                if st["rv"]["op"] == "Rem":
+                    rems.add(key)
+                else:
+                    divs.append((key, st))
+        for bi, t in f.calls():
+            if re.search(r"<impl usize>::(checked_div|wrapping_div|div_euclid|checked_div_euclid)$", t.get("callee") or "") and len(t["args"]) == 2 and _deep(f, t["args"][1], 5).endswith(".addr_unit"):
+                divs.append(((_deep(f, t["args"][0], 5), _deep(f, t["args"][1], 5)), {"span": t["span"]}))
+        for key, st in divs:
+            n += 1
+            if key not in rems:
+                bad.append("%s (%s)" % (f.loc(st["span"]), f.id.rsplit("::", 1)[-1]))
+    run.check(n >= 2 and not bad, R, R + "|unit-division|exact", "-", "every division by a bank's address unit has the remainder of the same operands taken next to it (%d site(s))" % n,
+              "a bit position or size is divided by the bank's address unit without the remainder being looked at: %s: an item that ends inside an address unit is rounded down (a full bank plus a 4-bit item passes the range test; `#align` after a 4-bit item pads from the rounded position)" % (", ".join(bad) or "division sites not found"))
